@@ -89,6 +89,12 @@ def tcp_flags_ok(word12, got):
     return got[0] == "i" and got[1] in (word12 & 0xFF, word12 & 0x1FF, word12 & 0xFFF)
 
 
+def wire_of(k, fr):
+    """wire length written into the record of the k-th frame of a batch"""
+    n = len(fr)
+    return [n, n + 40, n + 1454, max(0, n - 11), 0, n, 65535 + n][k % 7]
+
+
 def run(chk):
     rng = chk.rng
     quick = chk.tier == "quick"
@@ -155,7 +161,8 @@ def run(chk):
             batch = frames[bi:bi + B]
             inp = os.path.join(work, "r%d.pcap" % bi)
             with open(inp, "wb") as f:
-                f.write(pkt.pcap_file([(k, k * 3, fr) for k, fr in enumerate(batch)]))
+                # the wire length is what the record says: above, equal to, below the captured length, zero
+                f.write(pkt.pcap_file([(k, k * 3, fr, None, wire_of(k, fr)) for k, fr in enumerate(batch)]))
             lines = ["let __o = []; let ps = pcap_read_all(pcap_open(%s));" % lit(inp)]
             plan = []
             for k, fr in enumerate(batch):
@@ -248,7 +255,7 @@ def run(chk):
                     fr = batch[pl[1]]
                     if pl[0] == "packet":
                         k = pl[1]
-                        exp = ("a", (("i", k), ("i", k * 3), ("i", k * 3), ("i", len(fr)), ("i", len(fr)), ("a", tuple(("b", x) for x in fr))))
+                        exp = ("a", (("i", k), ("i", k * 3), ("i", k * 3), ("i", len(fr)), ("i", wire_of(k, fr)), ("a", tuple(("b", x) for x in fr))))
                         chk.observed(("packet-props",))
                         if got != exp:
                             chk.violation("field|packet", "packet properties [sec, usec, nsec, caplen, wirelen, payload] read %s" % core.short(show(got), 200),
